@@ -11,15 +11,14 @@ from `ExtendedToOriginalDecorator`, `TestResultDecorator`, `Tagger`, `Threadsafe
 `TextTestResult` / `TestByTestResult`, and **every** call history (no bound on length; well-formed or not
 unless stated).
 
-* `holds_model_partial` : the executable spec `Spec.C08.holds` is true of the model's trace (outside finding `tbtEmptyDetails`)
+* `holds_model`         : the executable spec `Spec.C08.holds` is true of the model's trace, for every input
 * `C08_reach`           : each leaf has received a call list whose test events are the history's, seen through the adapters above it
 * `C08_forward`, `C08_forward_wf`, `C08_once_in_order` : the `startTest`/outcome/`stopTest` log of each leaf = the history's,
                           once each, in order, degraded only by the fixed table
 * `C08_no_pass_from_fail` : the degradation never turns a failing outcome into a passing one
 * `C08_details_text`    : `_details_to_str` (modelled exactly) contains the stripped text of every non-empty text detail
-* `C08_tbt_partial`, `C08_tbt_times_tags`, `C08_tbt_table` : `TestByTestResult` — one callback per `stopTest` with test, status
+* `C08_tbt`, `C08_tbt_times_tags`, `C08_tbt_table` : `TestByTestResult` — one callback per `stopTest` with test, status
                           word, details, start/stop time and tags
-* `C08_finding_witness` : the model reproduces finding `tbtEmptyDetails`
 -/
 namespace TTV.Props.C08
 open TTV.Result TTV.ResC08 TTV.Spec.C08
@@ -293,13 +292,6 @@ theorem reach_steps : ∀ (s : Shape), s.noStream = true → ∀ (cs : List Call
       have hc := reachL_step ss hn' inner e c h
       cases c with
       | progress => simpa [step] using h
-      | startTestRun =>
-        simp only [step]
-        have a1 := reachL_step ss hn' inner e (.setFailfast false) h
-        have a2 := reachL_step ss hn' _ _ (.setFailfast ((failfastL ss inner).headD false)) a1
-        have a3 := reachL_restore ss hn' _ _ (failfastL ss inner) a2
-        have a4 := reachL_step ss hn' _ _ .startTestRun a3
-        simpa using a4
       | _ => simpa [step] using hc)
   | .e2s _, hn => by simp [Shape.noStream] at hn
 theorem reachL_step : ∀ (ss : List Shape), Shape.noStreamL ss = true → ∀ (st : StL ss) (e : List Call) (c : Call),
@@ -309,13 +301,6 @@ theorem reachL_step : ∀ (ss : List Shape), Shape.noStreamL ss = true → ∀ (
       simp only [Shape.noStreamL, Bool.and_eq_true] at hn
       simp only [ReachL, stepL] at h ⊢
       exact ⟨by simpa using reach_steps s hn.1 [c] x e h.1, reachL_step ss hn.2 xs e c h.2⟩
-theorem reachL_restore : ∀ (ss : List Shape), Shape.noStreamL ss = true → ∀ (st : StL ss) (e : List Call) (saved : List Bool),
-    ReachL ss st e → ReachL ss (restoreL ss st saved) e
-  | [], _, _, _, _, _ => by simp [ReachL]
-  | s :: ss, hn, (x, xs), e, saved, h => by
-      simp only [Shape.noStreamL, Bool.and_eq_true] at hn
-      simp only [ReachL, restoreL] at h ⊢
-      exact ⟨by simpa using reach_steps s hn.1 [.setFailfast (saved.headD false)] x e h.1, reachL_restore ss hn.2 xs e _ h.2⟩
 end
 
 mutual
@@ -333,14 +318,8 @@ theorem reach_init : ∀ (s : Shape), s.noStream = true → Reach s (init s) []
   | .tagger _ _ ch, hn => by
       simp only [Reach, init]; exact reach_init ch (by simpa [Shape.noStream] using hn)
   | .multi ss, hn => by
-      have hn' : Shape.noStreamL ss = true := by simpa [Shape.noStream] using hn
       simp only [Reach, init]
-      have a0 := reachL_init ss hn'
-      have a1 := reachL_step ss hn' _ _ (.setFailfast false) a0
-      have a2 := reachL_step ss hn' _ _ (.setFailfast false) a1
-      have a3 := reachL_step ss hn' _ _ (.setFailfast false) a2
-      have a4 := reachL_restore ss hn' _ _ (failfastL ss (initL ss)) a3
-      simpa using a4
+      exact reachL_init ss (by simpa [Shape.noStream] using hn)
   | .e2s _, hn => by simp [Shape.noStream] at hn
 theorem reachL_init : ∀ (ss : List Shape), Shape.noStreamL ss = true → ReachL ss (initL ss) []
   | [], _ => by simp [ReachL]
@@ -737,7 +716,7 @@ def proj (c : TbtCall) : Nat × Option Kind × Option Details := (c.test, c.stat
 def scanM : Option Kind → Option Details → List Call → List (Nat × Option Kind × Option Details)
   | _, _, [] => []
   | _, _, .startTest _ :: evs => scanM none none evs
-  | _, d, .add k _ a :: evs => scanM (some (tbtStatus k)) (tbtDet k a d) evs
+  | _, _, .add k _ a :: evs => scanM (some (tbtStatus k)) (tbtDet k a) evs
   | s, d, .stopTest t :: evs => (t, s, d) :: scanM s d evs
   | s, d, _ :: evs => scanM s d evs
 
@@ -748,15 +727,14 @@ theorem tbt_calls : ∀ (cs : List Call) (st : TbtSt),
       rw [List.foldl_cons, tbt_calls cs]
       cases c <;> simp [tbtStep, scanM, proj]
 
-/-- an outcome as it can reach a result: its argument has a form that fits the kind, and it is not the
-defective case (a failing outcome with an empty details dict) -/
+/-- an outcome as it can reach a result: its argument has a form that fits the kind -/
 def fineCall : Call → Bool
   | .add k _ a =>
       (match k, a with
        | .success, .none | .success, .details _ | .uxsuccess, .none | .uxsuccess, .details _ => true
        | .skip, .reason _ | .skip, .details _ => true
        | .error, .exc _ | .failure, .exc _ | .xfail, .exc _ => true
-       | .error, .details d | .failure, .details d | .xfail, .details d => !d.isEmpty
+       | .error, .details _ | .failure, .details _ | .xfail, .details _ => true
        | _, _ => false)
   | _ => true
 
@@ -770,10 +748,9 @@ theorem scanM_eq : ∀ (evs : List Call) (s : Option Kind) (d : Option Details),
       have ih := fun s d => scanM_eq evs s d h.2
       cases c with
       | add k t a =>
-        have : tbtDet k a d = tbtDetails a := by
+        have : tbtDet k a = tbtDetails a := by
           have h1 := h.1
           cases k <;> cases a <;> simp [fineCall] at h1 <;> simp [tbtDet, tbtDetails, errToDetails]
-          all_goals (rename_i dd; cases dd <;> simp_all)
         simp [scanM, tbtExpect, ih, this, tbtWord_eq]
       | _ => simp [scanM, tbtExpect, ih]
 
@@ -863,14 +840,22 @@ theorem reachL_tbt : ∀ (ss : List Shape), Shape.noStreamL ss = true → ∀ (s
         (reachL_tbt ss hn.2 xs evs h.2 (fun ht => hf (by simp [Shape.hasTbtL, ht])))
 end
 
+theorem ok_fine (h : List Call) (hok : h.all Call.ok = true) : (testEvs h).all fineCall = true := by
+  rw [List.all_eq_true]
+  intro c hc
+  have hc' : c ∈ h := (List.mem_filter.mp hc).1
+  have h1 := (List.all_eq_true.mp hok) c hc'
+  cases c with
+  | add k t a => cases k <;> cases a <;> simp [Call.ok, argOk] at h1 <;> simp [fineCall]
+  | _ => rfl
+
 /-- **C08 (TestByTestResult, what is reported).**  Whatever adapters sit above a `TestByTestResult`, its
 callbacks are exactly one per `stopTest` it is to receive, each carrying the test, the status word of the
-outcome reported since the `startTest` (`tbtWord`) and that outcome's details (`tbtDetails`) — provided no
-error / failure / expected failure comes with an *empty* details dict (finding `tbtEmptyDetails`). -/
-theorem C08_tbt_partial (s : Shape) (hs : s.noStream = true) (h : List Call)
-    (hf : (testEvs h).all fineCall = true) :
+outcome reported since the `startTest` (`tbtWord`) and that outcome's details (`tbtDetails`; an empty details dict
+is details), for every history of calls a caller may make (`Call.ok`: the argument form fits the outcome). -/
+theorem C08_tbt (s : Shape) (hs : s.noStream = true) (h : List Call) (hok : h.all Call.ok = true) :
     zip3All tbtOk ((leaves s (run s (init s) h)).map observe) (isTbtLeaf s) (expectV s (testEvs h)) = true :=
-  reach_tbt s hs _ _ (C08_reach s hs h) (fun _ => hf)
+  reach_tbt s hs _ _ (C08_reach s hs h) (fun _ => ok_fine h hok)
 
 /-! ### times and tags of a directly used TestByTestResult -/
 theorem tbt_root : ∀ (cs : List Call) (st : TbtSt),
@@ -923,24 +908,8 @@ theorem ok_unique (h : List Call) (hok : h.all Call.ok = true) :
   simp only [Call.ok, argOk, detailsOk, Bool.and_eq_true, Bool.not_eq_true'] at this
   exact unique_of_noDup d this.1
 
-theorem ok_fine (h : List Call) (hok : h.all Call.ok = true)
-    (hb : (h.any fun
-      | .add .error _ (.details []) | .add .failure _ (.details []) | .add .xfail _ (.details []) => true
-      | _ => false) = false) : (testEvs h).all fineCall = true := by
-  rw [List.all_eq_true]
-  intro c hc
-  have hc' : c ∈ h := (List.mem_filter.mp hc).1
-  have h1 := (List.all_eq_true.mp hok) c hc'
-  have h2 : _ = false := (List.any_eq_false.mp hb) c hc' |> Bool.eq_false_iff.mpr
-  cases c with
-  | add k t a =>
-    cases k <;> cases a <;> simp [Call.ok, argOk] at h1 <;> simp [fineCall]
-    all_goals (rename_i d; cases d <;> simp_all)
-  | _ => rfl
-
-/-- **Headline.**  The executable specification `Spec.C08.holds` is true of the model's trace for every input
-outside the known-finding class `tbtEmptyDetails`. -/
-theorem holds_model_partial (i : Input) (hc : tbtEmptyDetails i = false) : holds i (model i) = true := by
+/-- **Headline.**  The executable specification `Spec.C08.holds` is true of the model's trace for every input. -/
+theorem holds_model (i : Input) : holds i (model i) = true := by
   simp only [holds, clauses, List.all_cons, List.all_nil, Bool.and_true, Bool.and_eq_true]
   have key : inScope i = true → (i.hist.all Call.ok = true ∧ i.shape.noStream = true ∧
       (wfEvs (testEvs i.hist) = true ∨ i.shape.hasTfr = false)) := by
@@ -984,8 +953,7 @@ theorem holds_model_partial (i : Input) (hc : tbtEmptyDetails i = false) : holds
     · simp only [cTbt, hs, Bool.not_true, Bool.false_or]
       obtain ⟨hok, hn, hw⟩ := key hs
       have := reach_tbt i.shape hn _ _ (C08_reach i.shape hn i.hist) (fun ht => by
-        simp only [tbtEmptyDetails, ht, Bool.true_and] at hc
-        exact ok_fine _ hok hc)
+        exact ok_fine _ hok)
       rw [expectV_eq _ _ (hw.imp (tfrView_wf _) id)] at this
       exact this
   · -- tbt used directly
@@ -1028,14 +996,10 @@ theorem C08_tbt_table (k : Kind) :
     (methodName k, word (tbtWord k)) ∈ TTV.Generated.C08.tbtStatusWords := by
   cases k <;> decide
 
-/-! ## known finding and non-vacuity -/
-/-- the witness of finding `tbtEmptyDetails`: `addFailure(details={})` on a `TestByTestResult` -/
-def witness : Input :=
-  { shape := .tbt, hist := [.startTest 1, .add .failure 1 (.details []), .stopTest 1] }
-
-/-- inside the class the model reproduces the defect: the callback carries no details although `{}` was given -/
-theorem C08_finding_witness : tbtEmptyDetails witness = true ∧ cTbt witness (model witness) = false := by
-  decide
+/-! ## non-vacuity -/
+/-- an empty details dict is details (regression of the former finding `tbtEmptyDetails`) -/
+example : (run .tbt (init .tbt) [.startTest 1, .add .failure 1 (.details []), .stopTest 1] : TbtSt).calls.map proj
+    = [(1, some .failure, some [])] := rfl
 
 /-- the forwarding clause is not vacuous: a skip and an unexpected success through
 `MultiTestResult(2.6-style, TestResult)` inside a `ThreadsafeForwardingResult` -/
